@@ -177,6 +177,7 @@ static Register t2("c01.trim.n3s3.a3b3", "C01", "pairs of TRIMMED automata of TA
 static Register t3("c01.trim.n3s3.a3b4", "C01", "pairs of TRIMMED automata of TA(3,{a:0,b:0,f:1,g:2}): A <=3 x B <=4 rules, 8 variants", [](Env& e) { runTrim(e, "c01.trim.n3s3.a3b4", 3, dom::Sigma3(), 3, 4, false); });
 static Register t4("c01.trim.n3afh.a3b3", "C01", "pairs of TRIMMED automata of TA(3,{a:0,f:1,h:3},<=3 rules) (ternary symbol), 8 variants", [](Env& e) { runTrim(e, "c01.trim.n3afh.a3b3", 3, dom::SigmaAFH(), 3, 3, false); });
 static Register t5("c01.trim.n4s3p.a3b4", "C01", "pairs of TRIMMED automata of TA(4,{a:0,f:1,g:2}): A <=3 x B <=4 rules", [](Env& e) { runTrim(e, "c01.trim.n4s3p.a3b4", 4, dom::Sigma3p(), 3, 4, false); });
+static Register t10("c01.trim.n4s3p.a2b4", "C01", "pairs of TRIMMED automata of TA(4,{a:0,f:1,g:2}): A <=2 x B <=4 rules", [](Env& e) { runTrim(e, "c01.trim.n4s3p.a2b4", 4, dom::Sigma3p(), 2, 4, false); });
 static Register t6("c01.trim.n3s3.a4b4", "C01", "pairs of TRIMMED automata of TA(3,{a:0,b:0,f:1,g:2},<=4 rules), 8 variants", [](Env& e) { runTrim(e, "c01.trim.n3s3.a4b4", 3, dom::Sigma3(), 4, 4, false); });
 static Register t7("c01.trim.n2s2.a4b6", "C01", "pairs of TRIMMED automata of TA(2,{a:0,b:0,g:2}): A <=4 x B <=6 rules, 8 variants, 2 numberings", [](Env& e) { runTrim(e, "c01.trim.n2s2.a4b6", 2, dom::Sigma2(), 4, 6, true); });
 static Register t8("c01.trim.n2s2.a5b7", "C01", "pairs of TRIMMED automata of TA(2,{a:0,b:0,g:2}): A <=5 x B <=7 rules, 8 variants", [](Env& e) { runTrim(e, "c01.trim.n2s2.a5b7", 2, dom::Sigma2(), 5, 7, false); });
